@@ -1104,14 +1104,94 @@ fn rdata_reads_back(msg: &[u8], pos: usize, len: usize, v: &mc::rgen::Value) -> 
     Ok(())
 }
 
+/// The WRAPPER through which the record data of a value reaches the builder. Each is its own
+/// `ComposeRecordData` implementation (own `rdlen`, own `compose_rdata`) in front of the same data:
+/// the `AllRecordData` enum, the `ZoneRecordData` enum (what zone trees, zone files and XFR hand
+/// out; for the types it has), the concrete type inside the enum, `UnknownRecordData` over the
+/// reference RDATA (the opaque RFC 3597 route), and a `&`-reference to each (the blanket impl).
+#[derive(Clone, Copy, Debug, PartialEq)]
+enum Wrap {
+    All,
+    AllRef,
+    Zone,
+    ZoneRef,
+    Concrete,
+    ConcreteRef,
+    Opaque,
+    OpaqueRef,
+}
+const WRAPS: [Wrap; 8] = [Wrap::All, Wrap::AllRef, Wrap::Zone, Wrap::ZoneRef, Wrap::Concrete, Wrap::ConcreteRef, Wrap::Opaque, Wrap::OpaqueRef];
+impl Wrap {
+    fn label(self) -> &'static str {
+        match self {
+            Wrap::All => "AllRecordData",
+            Wrap::AllRef => "ref-AllRecordData",
+            Wrap::Zone => "ZoneRecordData",
+            Wrap::ZoneRef => "ref-ZoneRecordData",
+            Wrap::Concrete => "concrete-type",
+            Wrap::ConcreteRef => "ref-concrete-type",
+            Wrap::Opaque => "UnknownRecordData",
+            Wrap::OpaqueRef => "ref-UnknownRecordData",
+        }
+    }
+}
+
+/// The value's data taken out of the enum and pushed with its own type (by value or by reference).
+/// Err(b): the variant is not in the list below (a variant added to the library later).
+fn push_concrete<T: Tgt>(b: B<T>, owner: N, class: Class, ttl: Ttl, data: &Rd, by_ref: bool) -> Result<(B<T>, Option<bool>), B<T>> {
+    macro_rules! arms {
+        ($($v:ident),*) => {
+            match data {
+                $( Rd::$v(x) => Ok(if by_ref { push_gen(b, Record::new(owner, class, ttl, x)) } else { push_gen(b, Record::new(owner, class, ttl, x.clone())) }), )*
+                #[allow(unreachable_patterns)]
+                _ => Err(b),
+            }
+        };
+    }
+    arms!(
+        A, Cname, Hinfo, Mb, Md, Mf, Mg, Minfo, Mr, Mx, Ns, Ptr, Soa, Txt, Null, Aaaa, Caa, Cdnskey, Cds, Dname, Dnskey, Rrsig, Nsec, Ds, Ipseckey, Naptr, Nsec3, Nsec3param, Openpgpkey, Rp, Srv, Sshfp,
+        Svcb, Https, Tlsa, Tsig, Zonemd, Opt, Unknown
+    )
+}
+
+/// Err(b): this value cannot be handed over through this wrapper (not a zone type, ...).
+fn push_wrapped<T: Tgt>(b: B<T>, owner: N, class: Class, ttl: Ttl, v: &mc::rgen::Value, wrap: Wrap) -> Result<(B<T>, Option<bool>), B<T>> {
+    match wrap {
+        Wrap::All => Ok(push_any(b, Record::new(owner, class, ttl, v.data.clone()))),
+        Wrap::AllRef => Ok(push_gen(b, Record::new(owner, class, ttl, &v.data))),
+        Wrap::Zone | Wrap::ZoneRef => {
+            let z: Result<mc::rgen::ZRd, Rd> = v.data.clone().into();
+            match z {
+                Ok(z) if wrap == Wrap::Zone => Ok(push_gen(b, Record::new(owner, class, ttl, z))),
+                Ok(z) => Ok(push_gen(b, Record::new(owner, class, ttl, &z))),
+                Err(_) => Err(b),
+            }
+        }
+        Wrap::Concrete => push_concrete(b, owner, class, ttl, &v.data, false),
+        Wrap::ConcreteRef => push_concrete(b, owner, class, ttl, &v.data, true),
+        Wrap::Opaque | Wrap::OpaqueRef => match UnknownRecordData::from_octets(Rtype::from_int(v.rtype), v.wire.clone()) {
+            Ok(u) if wrap == Wrap::Opaque => Ok(push_gen(b, Record::new(owner, class, ttl, u))),
+            Ok(u) => Ok(push_gen(b, Record::new(owner, class, ttl, &u))),
+            Err(_) => Err(b),
+        },
+    }
+}
+
 fn part_values<T: Tgt + Send + Sync>(env: &Env, cfg: &Cfg<T>, vals: &[mc::rgen::Value]) {
     let sp = env.sh.sp;
     let ctx = env.sh.ctx;
+    let per_wrap: Vec<AtomicU64> = WRAPS.iter().map(|_| AtomicU64::new(0)).collect();
     vals.par_iter().enumerate().for_each(|(vi, v)| {
         // contexts 3..=8: the same value pushed through each form a record can be handed over in
         // ((name, class, ttl, data) tuples with Ttl or u32, class-less tuples, &Record, Record) with
         // boundary TTLs and a class other than IN; every 4th value only
         for context in 0..if vi % 4 == 0 { 9usize } else { 3usize } {
+          // the wrapper dimension: every wrapper in the three contexts in which names get compressed
+          // (contexts 3..=8 vary the FORM of the record around the AllRecordData value)
+          for (wi, &wrap) in WRAPS.iter().enumerate() {
+            if context >= 3 && wrap != Wrap::All {
+                continue;
+            }
             // (class, ttl) the value's record is expected to read back with
             let (want_class, want_ttl): (u16, u32) = match context {
                 3 => (3, 0x8000_0000),
@@ -1122,7 +1202,8 @@ fn part_values<T: Tgt + Send + Sync>(env: &Env, cfg: &Cfg<T>, vals: &[mc::rgen::
                 8 => (255, 0x8000_0000),
                 _ => (1, 77),
             };
-            let res = guard(|| -> Result<(), (String, String)> {
+            // Ok(false): the value cannot be handed over through this wrapper
+            let res = guard(|| -> Result<bool, (String, String)> {
                 let mut b: B<T> = B::Q(MessageBuilder::from_target((cfg.make)()).map_err(|_| ("from_target".to_string(), "from_target failed".to_string()))?.question());
                 // (what we expect to read back in the answer section)
                 enum Exp<'a> {
@@ -1157,7 +1238,10 @@ fn part_values<T: Tgt + Send + Sync>(env: &Env, cfg: &Cfg<T>, vals: &[mc::rgen::
                         (None, 5) => push_gen(b, (owner, Ttl::from_secs(want_ttl), v.data.clone())),
                         (None, 6) => push_gen(b, (owner, want_ttl, v.data.clone())),
                         (None, 7) => push_gen(b, &Record::new(owner, Class::from_int(want_class), Ttl::from_secs(want_ttl), v.data.clone())),
-                        (None, _) => push_any(b, Record::new(owner, Class::from_int(want_class), Ttl::from_secs(want_ttl), v.data.clone())),
+                        (None, _) => match push_wrapped(b, owner, Class::from_int(want_class), Ttl::from_secs(want_ttl), v, wrap) {
+                            Ok(x) => x,
+                            Err(_) => return Ok(false),
+                        },
                     };
                     b = nb;
                     match r {
@@ -1196,6 +1280,10 @@ fn part_values<T: Tgt + Send + Sync>(env: &Env, cfg: &Cfg<T>, vals: &[mc::rgen::
                                 return Err(("fixed-fields-mismatch".into(), format!("record {i}: owner/type/class/ttl read back as {:?}/{}/{}/{}, pushed with class {want_class} ttl {want_ttl}", r.owner, r.rtype, r.class, r.ttl)));
                             }
                             rdata_reads_back(octets, r.rdata_pos, r.rdata.len(), v).map_err(|e| ("rdata-mismatch".to_string(), format!("record {i}: {e}")))?;
+                            // opaque data is written as it is: not one octet of it is the builder's to change
+                            if matches!(wrap, Wrap::Opaque | Wrap::OpaqueRef) && r.rdata != v.wire {
+                                return Err(("opaque-rdata-changed".into(), format!("record {i}: data pushed as UnknownRecordData reads back as other octets")));
+                            }
                         }
                     }
                 }
@@ -1215,12 +1303,21 @@ fn part_values<T: Tgt + Send + Sync>(env: &Env, cfg: &Cfg<T>, vals: &[mc::rgen::
                         return Err(("stream-shim".into(), "length prefix differs from the message length".into()));
                     }
                 }
-                Ok(())
+                Ok(true)
             });
+            if let Ok(Ok(false)) = res {
+                continue;
+            }
             env.stats.eval();
-            let case = || json!({"config": cfg.name, "part": "every-type", "context": context, "value": v.desc, "rtype": v.rtype});
+            per_wrap[wi].fetch_add(1, AO::Relaxed);
+            if wrap != Wrap::All {
+                env.stats.distinct(fnv(format!("V|{}|{}|{context}|{}|{}", cfg.name, wrap.label(), v.mnemonic, v.index).as_bytes()));
+            }
+            let case = || json!({"config": cfg.name, "part": "every-type", "context": context, "pushed_as": wrap.label(), "value": v.desc, "rtype": v.rtype});
+            // (the wrapper is part of the class; the signatures of the AllRecordData route stay as they were)
+            let via = if wrap == Wrap::All { String::new() } else { format!("|pushed-as-{}", wrap.label()) };
             match res {
-                Ok(Ok(())) => {}
+                Ok(Ok(_)) => {}
                 Ok(Err((kind, what))) => {
                     // what the library's own typed reader makes of a well-formed record does not depend on the compressor
                     let sig = if kind == "lib-reader-fails" {
@@ -1228,17 +1325,21 @@ fn part_values<T: Tgt + Send + Sync>(env: &Env, cfg: &Cfg<T>, vals: &[mc::rgen::
                         let class: String = what.split(':').next().unwrap_or("").to_string();
                         format!("C02|every-type|lib-reader-fails|{}|{}", v.mnemonic, class)
                     } else {
-                        format!("C02|{}|every-type|{}|{}", comp_of(cfg.name), kind, v.mnemonic)
+                        format!("C02|{}|every-type|{}|{}{via}", comp_of(cfg.name), kind, v.mnemonic)
                     };
-                    ctx.violation(&sig, &format!("{what} [{} in context {context} on {}]", v.desc, cfg.name), case());
+                    ctx.violation(&sig, &format!("{what} [{} pushed as {} in context {context} on {}]", v.desc, wrap.label(), cfg.name), case());
                 }
                 Err(p) => {
-                    ctx.violation(&format!("C02|{}|every-type|panic|{}", comp_of(cfg.name), panic_class(&p)), &p, case());
+                    ctx.violation(&format!("C02|{}|every-type|panic|{}{via}", comp_of(cfg.name), panic_class(&p)), &p, case());
                 }
             }
+          }
         }
     });
-    env.stats.count_n(&format!("{}.every_type_cases", cfg.name), vals.len() as u64 * 3);
+    env.stats.count_n(&format!("{}.every_type_cases", cfg.name), per_wrap.iter().map(|c| c.load(AO::Relaxed)).sum());
+    for (w, c) in WRAPS.iter().zip(&per_wrap) {
+        env.stats.count_n(&format!("every_type.pushed_as.{}", w.label()), c.load(AO::Relaxed));
+    }
 }
 
 
@@ -1633,6 +1734,312 @@ fn part_opt_clone<T: Tgt + Send + Sync>(env: &Env, cfg: &Cfg<T>) {
     }
 }
 
+// ---------------------------------------------------------------------------
+// Part H: the OPT record's fixed fields as a state machine of their own. Inside
+// one opt() closure every SEQUENCE of header-setter operations (and option
+// pushes) up to a length bound; each field (UDP size, extended rcode with its
+// low four bits in the message header, version, DO) must read back as what the
+// LAST operation on that field set, fields no operation touched as an OPT built
+// by an empty closure shows them (the defaults are taken from there, not
+// assumed), the remaining flag bits as in that baseline, the options exactly
+// the ones pushed, in order. The getters of the OptBuilder are compared with
+// the same model after every single operation.
+// ---------------------------------------------------------------------------
+#[derive(Clone, Copy, Debug, PartialEq)]
+enum HOp {
+    Udp(u16),
+    /// the 12-bit extended rcode
+    Rcode(u16),
+    Version(u8),
+    Do(bool),
+    /// one option (code 65001) whose data names its position among the pushes
+    Push,
+}
+
+fn hop_menu() -> Vec<HOp> {
+    vec![
+        HOp::Udp(512),
+        HOp::Udp(1232),
+        HOp::Udp(65535),
+        HOp::Rcode(0),
+        HOp::Rcode(1),
+        HOp::Rcode(16),
+        HOp::Rcode(23),
+        HOp::Rcode(4095),
+        HOp::Version(0),
+        HOp::Version(1),
+        HOp::Version(255),
+        HOp::Do(true),
+        HOp::Do(false),
+        HOp::Push,
+    ]
+}
+
+#[derive(Clone, Debug, PartialEq)]
+struct OptFields {
+    udp: u16,
+    /// upper eight bits of the rcode (first octet of the TTL field)
+    ext: u8,
+    version: u8,
+    dnssec_ok: bool,
+    /// the flag bits other than DO
+    z: u16,
+    /// low four bits of the rcode (message header)
+    low: u8,
+    options: Vec<u8>,
+}
+impl OptFields {
+    fn apply(&mut self, op: HOp) {
+        match op {
+            HOp::Udp(v) => self.udp = v,
+            HOp::Rcode(v) => {
+                self.ext = (v >> 4) as u8;
+                self.low = (v & 0xF) as u8;
+            }
+            HOp::Version(v) => self.version = v,
+            HOp::Do(v) => self.dnssec_ok = v,
+            HOp::Push => {
+                let k = (self.options.len() / 6) as u8;
+                self.options.extend_from_slice(&[0xFD, 0xE9, 0, 2, k, 0xA5]);
+            }
+        }
+    }
+    /// first field that differs: (field, expected, observed)
+    fn diff(&self, got: &OptFields) -> Option<(&'static str, String, String)> {
+        if self.udp != got.udp {
+            return Some(("udp-payload-size", self.udp.to_string(), got.udp.to_string()));
+        }
+        if self.ext != got.ext {
+            return Some(("extended-rcode", self.ext.to_string(), got.ext.to_string()));
+        }
+        if self.version != got.version {
+            return Some(("version", self.version.to_string(), got.version.to_string()));
+        }
+        if self.dnssec_ok != got.dnssec_ok {
+            return Some(("dnssec-ok", self.dnssec_ok.to_string(), got.dnssec_ok.to_string()));
+        }
+        if self.z != got.z {
+            return Some(("other-flag-bits", format!("{:#06x}", self.z), format!("{:#06x}", got.z)));
+        }
+        if self.low != got.low {
+            return Some(("header-rcode-bits", self.low.to_string(), got.low.to_string()));
+        }
+        if self.options != got.options {
+            return Some(("options", hex(&self.options), hex(&got.options)));
+        }
+        None
+    }
+}
+
+/// What the getters of the OptBuilder show (udp, 12-bit rcode, version, DO).
+type Getters = (u16, u16, u8, bool);
+
+struct OptBuilt {
+    /// the fields the independent reader finds (None: opt() refused, octets checked to be unchanged)
+    read: Option<OptFields>,
+    /// getters before the first and after every operation
+    getters: Vec<Getters>,
+    /// the same fields through Message::opt() / OptRecord / Message::opt_rcode()
+    lib: Option<(OptFields, u16)>,
+}
+
+/// Build `question a. | OPT built by the sequence | sentinel A record` with the header rcode preset to
+/// `init_rcode` and read it back.
+fn opt_build_and_read<T: Tgt>(cfg: &Cfg<T>, sp: &[RSpec], init_rcode: u8, seq: &[HOp]) -> Result<OptBuilt, (String, String)> {
+    use domain::base::iana::{OptRcode, OptionCode, Rcode};
+    use domain::base::opt::UnknownOptData;
+    let mut mb = MessageBuilder::from_target((cfg.make)()).map_err(|_| ("from_target".to_string(), "from_target failed".to_string()))?;
+    mb.header_mut().set_id(0x1D1D);
+    mb.header_mut().set_rd(true);
+    mb.header_mut().set_rcode(Rcode::checked_from_int(init_rcode).expect("harness: rcode"));
+    let mut q = mb.question();
+    q.push(Question::new(name(QS[0].0), Rtype::from_int(QS[0].1), Class::IN)).map_err(|_| ("harness".to_string(), "question refused".to_string()))?;
+    let mut ar = q.additional();
+    let before = ar.as_slice().to_vec();
+    let mut getters: Vec<Getters> = Vec::new();
+    let ok = ar
+        .opt(|o| {
+            let mut pushes = 0u8;
+            getters.push((o.udp_payload_size(), o.rcode().to_int(), o.version(), o.dnssec_ok()));
+            for op in seq {
+                match *op {
+                    HOp::Udp(v) => o.set_udp_payload_size(v),
+                    HOp::Rcode(v) => o.set_rcode(OptRcode::masked_from_int(v)),
+                    HOp::Version(v) => o.set_version(v),
+                    HOp::Do(v) => o.set_dnssec_ok(v),
+                    HOp::Push => {
+                        let k = pushes;
+                        pushes += 1;
+                        o.push_raw_option(OptionCode::from_int(65001), 2, |t| t.append_slice(&[k, 0xA5]))?
+                    }
+                }
+                getters.push((o.udp_payload_size(), o.rcode().to_int(), o.version(), o.dnssec_ok()));
+            }
+            Ok(())
+        })
+        .is_ok();
+    if !ok {
+        if ar.as_slice() != &before[..] {
+            return Err(("failed-push-changed-message".into(), "a refused OPT changed the message octets".into()));
+        }
+        return Ok(OptBuilt { read: None, getters, lib: None });
+    }
+    let after_opt = ar.as_slice().len();
+    let sentinel = ar.push(sp[0].rec.clone()).is_ok();
+    if !sentinel && ar.as_slice().len() != after_opt {
+        return Err(("failed-push-changed-message".into(), "a refused record after the OPT changed the message length".into()));
+    }
+    let b: B<T> = B::Ar(ar);
+    let octets = b.slice();
+    let raw = read_message(octets).map_err(|e| ("unparseable".to_string(), format!("independent reader fails: {e}")))?;
+    if raw.end != octets.len() || raw.counts != [1, 0, 0, 1 + sentinel as u16] {
+        return Err(("header-counts".into(), format!("counts {:?}, end {} of {}: one question, the OPT{} pushed", raw.counts, raw.end, octets.len(), if sentinel { " and one record" } else { "" })));
+    }
+    let flags = u16::from_be_bytes([octets[2], octets[3]]);
+    if octets[0..2] != [0x1D, 0x1D] || flags & 0xFFF0 != 0x0100 {
+        return Err(("header-other-fields".into(), format!("building an OPT changed header fields other than the rcode: id {:02x}{:02x} flags {flags:#06x}", octets[0], octets[1])));
+    }
+    if raw.questions.len() != 1 || !mc::wire::labels_eq_ci(&raw.questions[0].qname, &labels(QS[0].0)) {
+        return Err(("question-mismatch".into(), "the question before the OPT reads back differently".into()));
+    }
+    let r = &raw.sections[2][0];
+    if r.rtype != 41 || !r.owner.is_empty() {
+        return Err(("opt-not-an-opt".into(), format!("the OPT reads back with type {} and an owner of {} label(s)", r.rtype, r.owner.len())));
+    }
+    if sentinel {
+        let s = &raw.sections[2][1];
+        if !mc::wire::labels_eq_ci(&s.owner, &sp[0].owner) || s.rtype != sp[0].rtype || s.class != 1 || s.ttl != sp[0].ttl || s.rdata != sp[0].rdata_norm {
+            return Err(("neighbour-record-mismatch".into(), "the record after the OPT reads back differently".into()));
+        }
+    }
+    let read = OptFields { udp: r.class, ext: (r.ttl >> 24) as u8, version: (r.ttl >> 16) as u8, dnssec_ok: r.ttl & 0x8000 != 0, z: (r.ttl & 0x7FFF) as u16, low: (flags & 0xF) as u8, options: r.rdata.clone() };
+    if let Some(f) = cfg.stream {
+        let s = f(b.target());
+        if s.len() < 2 || usize::from(u16::from_be_bytes([s[0], s[1]])) != s.len() - 2 || &s[2..] != octets {
+            return Err(("stream-shim".into(), "length prefix differs from the message length".into()));
+        }
+    }
+    // the library's reader
+    let lm = Message::from_octets(octets).map_err(|_| ("lib-short".to_string(), "Message::from_octets fails".to_string()))?;
+    let lib = match lm.opt() {
+        None => None,
+        Some(rec) => {
+            let rc = rec.rcode(lm.header()).to_int();
+            let mut options = Vec::new();
+            for o in rec.opt().iter::<UnknownOptData<_>>() {
+                let o = o.map_err(|_| ("lib-reader-fails".to_string(), "option iteration".to_string()))?;
+                options.extend_from_slice(&o.code().to_int().to_be_bytes());
+                options.extend_from_slice(&(o.as_slice().len() as u16).to_be_bytes());
+                options.extend_from_slice(o.as_slice());
+            }
+            // (OptRecord offers no view of the flag bits other than DO: taken as read above)
+            Some((OptFields { udp: rec.udp_payload_size(), ext: (rc >> 4) as u8, version: rec.version(), dnssec_ok: rec.dnssec_ok(), z: read.z, low: (rc & 0xF) as u8, options }, lm.opt_rcode().to_int()))
+        }
+    };
+    Ok(OptBuilt { read: Some(read), getters, lib })
+}
+
+/// All sequences over `menu` of length 0..=max, shortest first.
+fn hop_sequences(menu: &[HOp], max: usize) -> Vec<Vec<HOp>> {
+    let mut out: Vec<Vec<HOp>> = vec![vec![]];
+    let mut from = 0;
+    for _ in 0..max {
+        let to = out.len();
+        for i in from..to {
+            for op in menu {
+                let mut s = out[i].clone();
+                s.push(*op);
+                out.push(s);
+            }
+        }
+        from = to;
+    }
+    out
+}
+
+fn part_opt_header<T: Tgt + Send + Sync>(env: &Env, cfg: &Cfg<T>, every_cfg: bool) {
+    let ctx = env.sh.ctx;
+    let sp = env.sh.sp;
+    // The fixed fields do not pass through the compressor: in the quick tier one configuration per
+    // compressor and per kind of target, all of them in the thorough tier.
+    if ctx.quick() && !every_cfg && !["none/Vec", "static/Stream<Vec>", "tree/BytesMut", "hash/Array<600>"].contains(&cfg.name) {
+        return;
+    }
+    let menu = hop_menu();
+    let seqs = hop_sequences(&menu, if ctx.quick() { 3 } else { 4 });
+    let cases = AtomicU64::new(0);
+    for init_rcode in [0u8, 3] {
+        let report = |kind: &str, field: &str, what: String, seq: &[HOp]| {
+            let sig = if field.is_empty() { format!("C02|opt-header-ops|{kind}") } else { format!("C02|opt-header-ops|{kind}|{field}") };
+            ctx.violation(&sig, &format!("{what} [on {}, header rcode preset to {init_rcode}]", cfg.name), json!({"config": cfg.name, "part": "opt-header-ops", "header_rcode_before": init_rcode, "opt_ops": seq.iter().map(|o| format!("{:?}", o)).collect::<Vec<_>>()}));
+        };
+        // the baseline: what an OPT built without touching anything shows
+        let base = match guard(|| opt_build_and_read(cfg, sp, init_rcode, &[])) {
+            Ok(Ok(OptBuilt { read: Some(f), .. })) => f,
+            Ok(Ok(_)) => continue, // no room for an OPT on this target
+            Ok(Err((kind, what))) => {
+                report(&kind, "", what, &[]);
+                continue;
+            }
+            Err(p) => {
+                report("panic", &panic_class(&p), p.clone(), &[]);
+                continue;
+            }
+        };
+        if base.low != init_rcode || !base.options.is_empty() {
+            report("baseline", "", format!("an OPT built by an empty closure leaves header rcode bits {} (preset {init_rcode}) and {} octets of options", base.low, base.options.len()), &[]);
+            continue;
+        }
+        seqs.par_iter().for_each(|seq| {
+            let res = guard(|| opt_build_and_read(cfg, sp, init_rcode, seq));
+            env.stats.eval();
+            cases.fetch_add(1, AO::Relaxed);
+            env.sh.transitions.fetch_add(1, AO::Relaxed);
+            match res {
+                Err(p) => report("panic", &panic_class(&p), p.clone(), seq),
+                Ok(Err((kind, what))) => report(&kind, "", what, seq),
+                Ok(Ok(built)) => {
+                    // the model: last write wins per field
+                    let mut m = base.clone();
+                    let mut trace = vec![m.clone()];
+                    for op in seq {
+                        m.apply(*op);
+                        trace.push(m.clone());
+                    }
+                    for (i, (g, want)) in built.getters.iter().zip(&trace).enumerate() {
+                        let want_g: Getters = (want.udp, (want.ext as u16) << 4 | want.low as u16, want.version, want.dnssec_ok);
+                        if *g != want_g {
+                            let field = if g.0 != want_g.0 { "udp-payload-size" } else if g.1 != want_g.1 { "rcode" } else if g.2 != want_g.2 { "version" } else { "dnssec-ok" };
+                            report("getter-in-closure", field, format!("after {i} operation(s) the OptBuilder's getters show (udp, rcode, version, DO) = {:?}, set so far: {:?}", g, want_g), seq);
+                            break; // (what the message reads back as is compared all the same)
+                        }
+                    }
+                    let Some(read) = built.read else {
+                        env.stats.count("opt_header_ops.refused");
+                        return;
+                    };
+                    env.stats.distinct(fnv(format!("H|{}|{init_rcode}|{:?}", cfg.name, seq).as_bytes()));
+                    if let Some((field, want, got)) = m.diff(&read) {
+                        report("field-reads-back-differently", field, format!("{field} reads back as {got}, the last operation on it set {want} (operations: {:?})", seq), seq);
+                        return;
+                    }
+                    match built.lib {
+                        None => report("lib-reader", "no-opt", "Message::opt() does not find the OPT record".into(), seq),
+                        Some((lf, opt_rcode)) => {
+                            if let Some((field, want, got)) = m.diff(&lf) {
+                                report("lib-reader", field, format!("{field} through Message::opt() is {got}, the last operation on it set {want}"), seq);
+                            } else if opt_rcode != (m.ext as u16) << 4 | m.low as u16 {
+                                report("lib-reader", "opt_rcode", format!("Message::opt_rcode() is {opt_rcode}, set {}", (m.ext as u16) << 4 | m.low as u16), seq);
+                            }
+                        }
+                    }
+                }
+            }
+        });
+    }
+    env.stats.count_n(&format!("{}.opt_header_ops_cases", cfg.name), cases.load(AO::Relaxed));
+}
+
 struct Timer(&'static str, std::time::Instant);
 impl Drop for Timer {
     fn drop(&mut self) {
@@ -1646,6 +2053,8 @@ struct Env<'a> {
     sh: &'a Shared<'a>,
     stats: &'a Stats,
     replay: &'a Option<(String, Vec<Op>)>,
+    /// replay of a case of parts V/P/O/H: (part, configuration)
+    replay_part: &'a Option<(String, String)>,
     small_ops: &'a [Op],
     pad_ops: &'a [Op],
     via_ops: &'a [Op],
@@ -1659,6 +2068,20 @@ fn go<T: Tgt + Send + Sync>(env: &Env, cfg: &Cfg<T>) {
     let t0 = std::time::Instant::now();
     let _timer = Timer(cfg.name, t0);
     env.cfg_names.lock().unwrap().push(cfg.name);
+    if let Some((part, c)) = env.replay_part {
+        // a case of one of the parts below: the part is run again on the case's configuration
+        if c == cfg.name {
+            println!("replaying part {part} on {c}");
+            match part.as_str() {
+                "every-type" => part_values(env, cfg, env.vals),
+                "parsed-source" => part_parsed(env, cfg),
+                "opt-clone_from" => part_opt_clone(env, cfg),
+                "opt-header-ops" => part_opt_header(env, cfg, true),
+                _ => println!("unknown part"),
+            }
+        }
+        return;
+    }
     if let Some((c, h)) = env.replay {
         if c == cfg.name {
             println!("replaying on {}: {:?}", c, h);
@@ -1715,6 +2138,8 @@ fn go<T: Tgt + Send + Sync>(env: &Env, cfg: &Cfg<T>) {
     part_parsed(env, cfg);
     // part O: OPT records copied from other messages
     part_opt_clone(env, cfg);
+    // part H: sequences of operations on the OPT record's fixed fields
+    part_opt_header(env, cfg, false);
     env.total_tr.fetch_add(env.sh.transitions.load(AO::Relaxed) - before, AO::Relaxed);
 }
 
@@ -1732,10 +2157,12 @@ fn main() {
     let total_tr = AtomicU64::new(0);
     let cfg_names: Vec<&'static str>;
 
-    let replay: Option<(String, Vec<Op>)> = ctx.replay.as_ref().map(|p| {
-        let v: Value = serde_json::from_str(&std::fs::read_to_string(p).expect("replay file")).expect("json");
-        (v["case"]["config"].as_str().unwrap().to_string(), v["case"]["ops"].as_array().unwrap().iter().map(|o| parse_op(o.as_str().unwrap())).collect())
-    });
+    let replay_json: Option<Value> = ctx.replay.as_ref().map(|p| serde_json::from_str(&std::fs::read_to_string(p).expect("replay file")).expect("json"));
+    let replay_part: Option<(String, String)> = replay_json.as_ref().and_then(|v| Some((v["case"]["part"].as_str()?.to_string(), v["case"]["config"].as_str()?.to_string())));
+    let replay: Option<(String, Vec<Op>)> = match (&replay_json, &replay_part) {
+        (Some(v), None) => Some((v["case"]["config"].as_str().unwrap().to_string(), v["case"]["ops"].as_array().unwrap().iter().map(|o| parse_op(o.as_str().unwrap())).collect())),
+        _ => None,
+    };
 
     // Quick tier: the heavy pad records only take part at depth <= 4 via a
     // second pass with a pad-focused alphabet; see `pad_ops` below.
@@ -1755,7 +2182,7 @@ fn main() {
     via_ops.extend([Op::Opt, Op::Goto(0), Op::Goto(1), Op::Goto(2), Op::Goto(3), Op::Rewind, Op::LimVia(30, 1), Op::LimVia(30, 2), Op::Clr]);
 
     let vals = mc::rgen::values_ex(mc::rgen::Tier::Compact).0;
-    let env = Env { via_ops: &via_ops, vals: &vals, sh: &sh, stats: &stats, replay: &replay, small_ops: &small_ops, pad_ops: &pad_ops, depth, total_tr: &total_tr, cfg_names: std::sync::Mutex::new(Vec::new()) };
+    let env = Env { replay_part: &replay_part, via_ops: &via_ops, vals: &vals, sh: &sh, stats: &stats, replay: &replay, small_ops: &small_ops, pad_ops: &pad_ops, depth, total_tr: &total_tr, cfg_names: std::sync::Mutex::new(Vec::new()) };
     cfgs!(env);
     cfg_names = env.cfg_names.into_inner().unwrap();
     let tr = total_tr.load(AO::Relaxed);
@@ -1777,6 +2204,8 @@ fn main() {
             "configurations": cfg_names,
             "alphabet": ops.iter().map(|o| format!("{:?}", o)).collect::<Vec<_>>(),
             "every_type": {"values": vals.len(), "contexts": ["question + value + sentinel", "question + NS (names to compress against) + value + sentinel", "value + same value again + sentinel"], "rule": "every value of the shared generator's compact menu (all record types) pushed on every configuration; the independent reader checks counts, fixed fields, RDATA literal octets and every embedded name against the generator's reference wire, the neighbours, pointers, the library's reader and the stream prefix"},
+            "every_type_wrappers": {"wrappers": WRAPS.iter().map(|w| w.label()).collect::<Vec<_>>(), "rule": "in the three contexts the record data of every value reaches the builder through every wrapper that can carry it: the AllRecordData enum, the ZoneRecordData enum (zone types), the concrete type taken out of the enum, UnknownRecordData over the generator's reference RDATA, and a &-reference to each; same oracle (RDLENGTH equals the octets the data occupies, literal octets identical, embedded names read back as the same names, neighbours and the rest of the message still parse); opaque data must read back octet for octet"},
+            "opt_header_ops": {"menu": hop_menu().iter().map(|o| format!("{:?}", o)).collect::<Vec<_>>(), "max_len": if ctx.quick() { 3 } else { 4 }, "header_rcode_before": [0, 3], "configurations": if ctx.quick() { json!(["none/Vec", "static/Stream<Vec>", "tree/BytesMut", "hash/Array<600>"]) } else { json!("all") }, "rule": "every sequence of OptBuilder operations up to the length bound inside one opt() closure (question before, a record after); model: last write wins per field, untouched fields and the flag bits other than DO as an OPT built by an empty closure on the same configuration shows them; read by the independent reader (CLASS, the four TTL octets, RDATA, header rcode bits, rest of the header unchanged) and by Message::opt()/opt_rcode(); the OptBuilder's getters are compared with the model after every operation"},
             "pad_alphabet": pad_ops.iter().map(|o| format!("{:?}", o)).collect::<Vec<_>>(),
             "route_alphabet": {
                 "ops": via_ops.iter().map(|o| format!("{:?}", o)).collect::<Vec<_>>(),
